@@ -89,6 +89,7 @@ func cmdVerify(args []string) {
 	verbose := fs.Bool("v", false, "verbose")
 	to := fs.Duration("timeout", 10*time.Second, "per-obligation timeout")
 	keep := fs.String("keep", "", "directory to keep SMT files in")
+	only := fs.String("only", "", "solve only obligations whose name contains this substring (development aid)")
 	fs.Parse(args)
 	cs, err := LoadAllContracts(repoDir, trustedDir)
 	if err != nil {
@@ -157,6 +158,15 @@ func cmdVerify(args []string) {
 			continue
 		}
 		gen := time.Since(t0)
+		if *only != "" {
+			var keepO []*Obligation
+			for _, o := range r.Unit.Obls {
+				if strings.Contains(o.Name, *only) {
+					keepO = append(keepO, o)
+				}
+			}
+			r.Unit.Obls = keepO
+		}
 		SolveAll([]*Unit{r.Unit}, dir, *to, 6)
 		np, nf, nu := 0, 0, 0
 		for _, o := range r.Unit.Obls {
